@@ -104,6 +104,8 @@ pub enum Action {
 pub struct Cfg {
     pub dup: bool,
     pub deliver_return: bool,
+    /// families whose scripts get the DeliverReturn transitions even when `deliver_return` is off (small graphs)
+    pub deliver_return_families: Vec<String>,
     pub bogus: bool,
     pub max_deviations: Option<u32>,
     pub state_cap: usize,
@@ -123,6 +125,7 @@ impl Default for Cfg {
         Cfg {
             dup: true,
             deliver_return: false,
+            deliver_return_families: vec![],
             bogus: false,
             max_deviations: None,
             state_cap: 200_000,
@@ -277,6 +280,11 @@ impl Cx {
             }
         };
         let id = self.runs.len() as RunId;
+        if std::env::var("VERIF_DUMP_RUNS").is_ok() {
+            // development aid: one line per distinct run
+            let tr = self.blobs[rec.out as usize].dec.as_ref().map(|d| format!("{:?}", d.trace)).unwrap_or_default();
+            host::elog(&format!("RUN {id} peer={} prev={} cur={} results={:?} -> code={} msg={:?} next={:?} requests={:?} out={} trace={}", self.world.peers[peer].name, prev, cur, rec.results, rec.ret_code, rec.error_message, rec.next_peers.iter().map(|p| self.world.peer_name_by_id(p)).collect::<Vec<_>>(), rec.requests.iter().map(|(k, r)| (*k, self.reqs[*r as usize].function.clone(), self.reqs[*r as usize].args.clone(), self.reqs[*r as usize].tetraplets.iter().map(|ts| ts.iter().map(|t| (self.world.peer_name_by_id(&t.0), t.1.clone(), t.2.clone(), t.3.clone())).collect::<Vec<_>>()).collect::<Vec<_>>())).collect::<Vec<_>>(), rec.out, tr));
+        }
         self.runs.push(rec);
         self.run_ix.insert(key, id);
         id
